@@ -93,6 +93,7 @@ type ModelOpts struct {
 	MaxTypes    int
 	NoWildcard  bool
 	SecondUserType bool
+	Recursive   float64 // bias towards self- and mutually recursive relations (cycle groups)
 }
 
 // Model generates a (probably valid) model. Validity against the real model validator and
@@ -166,10 +167,10 @@ func (g *G) Model(o ModelOpts) *rm.Model {
 			ut := Pick(g, userTypes)
 			add(rm.Restriction{Type: ut, Wildcard: true, Cond: condNameMaybe(g, m, 0.3)})
 		}
-		if g.Chance(0.45) {
+		if g.Chance(0.45 + o.Recursive*0.4) {
 			// userset restriction; bias to self (recursive) and to member-like relations
 			var d relDecl
-			if g.Chance(0.35) {
+			if g.Chance(0.35 + o.Recursive*0.3) {
 				d = self
 			} else {
 				d = Pick(g, decls)
@@ -283,6 +284,9 @@ func (g *G) Model(o ModelOpts) *rm.Model {
 			for i := 0; i < n; i++ {
 				set[Pick(g, names)] = true
 			}
+			if o.Recursive > 0 && g.Chance(o.Recursive) {
+				set[tn] = true
+			}
 			for k := range set {
 				tsTargets[tn] = append(tsTargets[tn], k)
 			}
@@ -300,6 +304,13 @@ func (g *G) Model(o ModelOpts) *rm.Model {
 				if rw.Kind == rm.TTU && rw.Relation == "?" {
 					tt := Pick(g, tsTargets[tn])
 					rw.Relation = Pick(g, relsOf[tt])
+					if o.Recursive > 0 && g.Chance(o.Recursive) {
+						for _, t2 := range tsTargets[tn] {
+							if t2 == tn {
+								rw.Relation = r // parent-style recursion: `r: ... or r from parent`
+							}
+						}
+					}
 				}
 				for _, c := range rw.Children {
 					fix(c)
